@@ -571,3 +571,119 @@ func ojValidateReader(b []byte, s *sim.Schedule) *outcome {
 		o.Err = v.ValidateReader(rd)
 	})
 }
+
+// ---- package-level variants (thin wrappers, pooled instances): each must give what its sibling above gives
+
+func mustGuard(o *outcome, f func()) {
+	defer func() {
+		if r := recover(); r != nil {
+			if e, ok := r.(error); ok {
+				o.Err = e // the Must* variants report through a panic carrying the error
+				return
+			}
+			panic(r)
+		}
+	}()
+	f()
+}
+
+// pkgVariant runs the k-th package-level variant of family fam ("oj", "ojtok", "ojval", "sen", "sentok").
+func pkgVariant(fam string, k int, b []byte, s *sim.Schedule, mode int) *outcome {
+	var rd *sim.SimReader
+	finish := func(o *outcome, v any, get func() []any) {
+		if get != nil {
+			o.Docs = returned(get(), v)
+		} else if o.Err == nil {
+			o.Docs = []any{v}
+		}
+	}
+	switch fam {
+	case "oj":
+		names := []string{"oj.Parse", "oj.ParseString", "oj.MustParse", "oj.MustParseString", "oj.Load", "oj.MustLoad"}
+		k %= len(names)
+		if k >= 4 {
+			rd = sim.NewSimReader(b, s)
+		}
+		return run(names[k], rd, func(o *outcome) {
+			args, get := collectAny(mode, len(b))
+			var v any
+			switch k {
+			case 0:
+				v, o.Err = oj.Parse(append([]byte(nil), b...), args...)
+			case 1:
+				v, o.Err = oj.ParseString(string(b), args...)
+			case 2:
+				mustGuard(o, func() { v = oj.MustParse(append([]byte(nil), b...), args...) })
+			case 3:
+				mustGuard(o, func() { v = oj.MustParseString(string(b), args...) })
+			case 4:
+				v, o.Err = oj.Load(rd, args...)
+			default:
+				mustGuard(o, func() { v = oj.MustLoad(rd, args...) })
+			}
+			finish(o, v, get)
+		})
+	case "sen":
+		names := []string{"sen.Parse", "sen.MustParse", "sen.ParseReader", "sen.MustParseReader"}
+		k %= len(names)
+		if k >= 2 {
+			rd = sim.NewSimReader(b, s)
+		}
+		return run(names[k], rd, func(o *outcome) {
+			args, get := collectAny(mode, len(b))
+			var v any
+			switch k {
+			case 0:
+				v, o.Err = sen.Parse(append([]byte(nil), b...), args...)
+			case 1:
+				mustGuard(o, func() { v = sen.MustParse(append([]byte(nil), b...), args...) })
+			case 2:
+				v, o.Err = sen.ParseReader(rd, args...)
+			default:
+				mustGuard(o, func() { v = sen.MustParseReader(rd, args...) })
+			}
+			finish(o, v, get)
+		})
+	case "ojtok", "sentok":
+		names := []string{fam[:len(fam)-3] + ".Tokenize", fam[:len(fam)-3] + ".TokenizeString", fam[:len(fam)-3] + ".TokenizeLoad"}
+		k %= len(names)
+		if k == 2 {
+			rd = sim.NewSimReader(b, s)
+		}
+		return run(names[k], rd, func(o *outcome) {
+			h := newBuilderHandler()
+			var err error
+			switch {
+			case fam == "ojtok" && k == 0:
+				err = oj.Tokenize(append([]byte(nil), b...), h)
+			case fam == "ojtok" && k == 1:
+				err = oj.TokenizeString(string(b), h)
+			case fam == "ojtok":
+				err = oj.TokenizeLoad(rd, h)
+			case k == 0:
+				err = sen.Tokenize(append([]byte(nil), b...), h)
+			case k == 1:
+				err = sen.TokenizeString(string(b), h)
+			default:
+				err = sen.TokenizeLoad(rd, h)
+			}
+			tokDocs(h, err, modeCB, o) // (the package-level tokenize functions take every document of the input)
+		})
+	default: // "ojval"
+		names := []string{"oj.Validate", "oj.ValidateString", "oj.ValidateReader"}
+		k %= len(names)
+		if k == 2 {
+			rd = sim.NewSimReader(b, s)
+		}
+		return run(names[k], rd, func(o *outcome) {
+			switch k {
+			case 0:
+				o.Err = oj.Validate(append([]byte(nil), b...))
+			case 1:
+				o.Err = oj.ValidateString(string(b))
+			default:
+				o.Err = oj.ValidateReader(rd)
+			}
+		})
+	}
+}
